@@ -18,9 +18,27 @@ type wire struct {
 	out    int // direction this end writes to
 	chunks []int
 	sync   bool
+
+	zeroReads int // consecutive zero-length reads (reader goroutine only)
 }
 
 func (w *wire) Read(p []byte) (int, error) {
+	if w.s.isAborted() {
+		return 0, xport.ErrClosed
+	}
+	if len(p) == 0 {
+		// A Conn that keeps reading into an empty slice can never make
+		// progress: report it at once instead of waiting for the watchdog.
+		w.zeroReads++
+		if w.zeroReads > 10000 {
+			w.s.fail(1-w.out, priRecvErr, "hang/zero-length-read-loop",
+				"%s: the receiving Conn called Read with a zero-length buffer more than 10000 times in a row (receiver at op #%d; read window full?)",
+				dirName(1-w.out), w.s.recvOp[1-w.out].Load())
+			return 0, xport.ErrClosed
+		}
+	} else {
+		w.zeroReads = 0
+	}
 	n, err := w.end.Read(p)
 	// wake a synchronous writer of the incoming direction
 	w.s.mu.Lock()
